@@ -544,6 +544,8 @@ func runC09(p *Program, r *Report) {
 	c09escape(p, r, "C09.escape")
 	c09cancel(p, r, "C09.cancel")
 	c20selfjoin(p, r, "C09.selfjoin")
+	c05leak(p, r, getLockEnv(p), "C09.release")
+	c05noreacquire(p, r, getLockEnv(p), "C09.noreacquire")
 	if us := unresolvedDynamic(p); len(us) > 0 {
 		r.Undecide("C09.selfjoin: dynamic call sites not in the dispatch table (call graph incomplete): %v", us)
 	}
